@@ -18,8 +18,6 @@ import vlib
 from vlib import log
 
 LEVEL = "model_checking"
-# VERIF_UNSTEER=F29,F31 ./check ...: switch the steering around the named recorded findings off (to test a candidate repair)
-UNSTEER = ["--unsteer", os.environ["VERIF_UNSTEER"]] if os.environ.get("VERIF_UNSTEER") else []
 _lock = threading.Lock()
 _counter = itertools.count()
 
@@ -27,9 +25,17 @@ KF_BOOLRANGE = ("RangeQuery on a bool FAST field fails with InvalidArgument 'Exp
                 "range path accepts the Bool type but cannot convert its bounds (the same range on a non-fast bool field works)")
 KF_FUZZYPREFIX = ("FuzzyTermQuery::new_prefix with distance 2 is not closed under extension: a word whose proper prefix is within "
                   "distance 2 of the term is rejected when the whole word is farther (term 'aab': 'b' matches, 'bc' does not)")
+# F33 / F34 are repaired in /repo; their texts are kept so that a regression is reported in the same words
 KF_UNIONMEMBER = ("an Intersection probing a union (Should clauses / dismax) that has a phrase or an intersection as a member returns documents "
                   "that match no member: BufferedUnionScorer::seek_danger leaves a member that missed in the danger zone and later takes its "
                   "stale position (terms of the phrase present, phrase absent) for a match")
+KF_SLOP3 = ("PhraseScorer::phrase_exists (scoring disabled) checks the last term of a phrase of three or more terms with the full slop "
+            "and ignores the slop already spent: Count / DocSetCollector match documents that TopDocs by score (and the documented "
+            "budget, \"A B C\"~1 does not match \"A X B X C\") reject")
+KF_F64BOUND = ("RangeQuery with a non-integer f64 bound on an integer JSON fast-field column rounds the bound toward zero "
+               "(transform_from_f64_bounds): the lower bound 1.5 admits the value 1, the upper bound -0.5 admits the value 0")
+KF_IPEXCL = ("RangeQuery on an ip fast field with the upper bound Excluded(::) matches every document that has an address "
+             "(u128 underflow in bound_range_inclusive_ip; a panic when overflow checks are on)")
 F7_TEXT = "a single Should clause with minimum_number_should_match >= 2 returns the clause's documents instead of nothing"
 
 
@@ -96,6 +102,27 @@ def union_has_danger_member(q):
     return False
 
 
+def has_ip_excl0(q):
+    if isinstance(q, dict):
+        if q.get("k") == "range" and q.get("f") == "ip" and q.get("hi", {}).get("b") == "ex" and q["hi"].get("v") == 0:
+            return True
+        return any(has_ip_excl0(v) for v in q.values())
+    if isinstance(q, list):
+        return any(has_ip_excl0(v) for v in q)
+    return False
+
+
+def has_bad_f64_bound(q):
+    if isinstance(q, dict):
+        if q.get("k") == "jrange":
+            lo, hi = q.get("lo", {}), q.get("hi", {})
+            return (lo.get("b") != "un" and lo.get("h", 0) > 0 and lo.get("h", 0) % 2 != 0) or (hi.get("b") != "un" and hi.get("h", 0) < 0 and hi.get("h", 0) % 2 != 0)
+        return any(has_bad_f64_bound(v) for v in q.values())
+    if isinstance(q, list):
+        return any(has_bad_f64_bound(v) for v in q)
+    return False
+
+
 def classify(diag):
     if not isinstance(diag, dict) or "q" not in diag:
         return "C03: trace rejected: " + json.dumps(diag)[:300]
@@ -104,6 +131,12 @@ def classify(diag):
     got = diag.get("got", {})
     if union_has_danger_member(q) and may_be_intersection(q) and isinstance(got.get("count"), int) and got["count"] > diag.get("expected_count", 0):
         return "C03 query semantics: " + KF_UNIONMEMBER + f" [{path}]"
+    if q.get("k") == "phrase" and len(q.get("ts", [])) >= 3 and q.get("slop", 0) > 0:
+        return "C03 query semantics: " + KF_SLOP3 + f" [{path}]"
+    if has_ip_excl0(q):
+        return "C03 query semantics: " + KF_IPEXCL + f" [{path}]"
+    if has_bad_f64_bound(q):
+        return "C03 query semantics: " + KF_F64BOUND + f" [{path}]"
     if has_fuzzy_prefix2(q):
         return "C03 query semantics: " + KF_FUZZYPREFIX + f" [{path}]"
     if has_single_should_msm(q):
@@ -284,7 +317,7 @@ def random_trees(ctx, runs):
     def one(ir):
         i, (seed, docs, queries, extra) = ir
         tp = ctx.path(f"rand{i}_trace.ndjson")
-        vlib.run_bin("query_driver", ["random", "--seed", seed, "--docs", docs, "--queries", queries, "--out", tp] + extra + UNSTEER, timeout=900, mem_gb=12)
+        vlib.run_bin("query_driver", ["random", "--seed", seed, "--docs", docs, "--queries", queries, "--out", tp] + extra, timeout=900, mem_gb=12)
         ev = vlib.read_ndjson(tp)
         n = validate(ctx, ev, f"rand{i}")
         info = next((e for e in ev if e.get("ev") == "info" and "segments" in e), {})
@@ -319,35 +352,54 @@ def stale_member_queries(corpus):
 
 
 def known_finding_runs(ctx):
-    qs = [
-        {"k": "fuzzy", "f": "tag", "t": [1, 1, 2], "d": 2, "tr": False, "prefix": True},
-        {"k": "range", "f": "flag", "lo": {"b": "in", "v": 1}, "hi": {"b": "in", "v": 1}},
-    ]
+    """dedicated reproductions of the recorded findings the default generator steers around: F35 (prefix fuzzy with distance 2),
+    a phrase of three terms with slop and scoring disabled, non-integer f64 bounds on an integer JSON column"""
+    ph = lambda ts, slop: {"k": "phrase", "f": "title", "ts": ts, "slop": slop}
+    un = {"b": "un"}
+    qs = [{"k": "fuzzy", "f": "tag", "t": [1, 1, 2], "d": 2, "tr": False, "prefix": True},
+          ph(["t0", "t1", "t2"], 1), ph(["t1", "all", "t0"], 2), ph(["t0", "t2", "t1"], 1),
+          {"k": "jrange", "lo": {"b": "in", "h": 3}, "hi": un}, {"k": "jrange", "lo": {"b": "ex", "h": 9}, "hi": un},
+          {"k": "jrange", "lo": un, "hi": {"b": "in", "h": -1}}, {"k": "jrange", "lo": un, "hi": {"b": "ex", "h": -3}},
+          {"k": "range", "f": "ip", "lo": un, "hi": {"b": "ex", "v": 0}}]
     cp = ctx.path("kf_queries.ndjson")
     vlib.write_ndjson(cp, qs)
     tp = ctx.path("kf_trace.ndjson")
-    vlib.run_bin("query_driver", ["random", "--seed", 5, "--docs", 2500, "--fixed", cp, "--no-avoid", "--out", tp], timeout=300)
+    vlib.run_bin("query_driver", ["random", "--seed", 5, "--docs", 2500, "--fixed", cp, "--out", tp], timeout=300)
     seen = []
     before = ctx.cov["traces_validated_against_impl"]
     validate(ctx, vlib.read_ndjson(tp), "kf", seen=seen)
-    # the stale union member: the queries are derived from the corpus of a first run (one big segment of 6,000 documents)
-    args = ["random", "--seed", 9, "--docs", 6000, "--indexes", 2, "--no-avoid"]
-    c0 = ctx.path("kf2_q0.ndjson")
-    vlib.write_ndjson(c0, [{"k": "empty"}])
-    t0 = ctx.path("kf2_trace0.ndjson")
+    ctx.cov["traces_validated_against_impl"] = before
+    ctx.cov["recorded_findings_reproduced"] = {"F35 fuzzy_prefix_distance_2": any(KF_FUZZYPREFIX in s for s in seen),
+                                               "phrase_slop_3_terms_no_scoring": any(KF_SLOP3 in s for s in seen),
+                                               "f64_bound_on_integer_json_column": any(KF_F64BOUND in s for s in seen),
+                                               "ip_range_excluded_upper_zero": any(KF_IPEXCL in s for s in seen)}
+
+
+def regression_cases(ctx):
+    """small cases of the repaired defects F34 (range on a bool FAST field) and F33 (an intersection probing a union with a
+    phrase member returned documents matching no member): they must be accepted like everything else.  The F33 queries are
+    derived from the corpus of a first run (inputs only; one segment of 6,000 documents)."""
+    args = ["random", "--seed", 9, "--docs", 6000, "--indexes", 2]
+    c0 = ctx.path("regr_q0.ndjson")
+    vlib.write_ndjson(c0, [{"k": "range", "f": "flag", "lo": {"b": "in", "v": 1}, "hi": {"b": "in", "v": 1}},
+                           {"k": "range", "f": "flag", "lo": {"b": "ex", "v": 0}, "hi": {"b": "un"}},
+                           {"k": "range", "f": "flag", "lo": {"b": "un"}, "hi": {"b": "ex", "v": 1}}])
+    t0 = ctx.path("regr_trace0.ndjson")
     vlib.run_bin("query_driver", args + ["--fixed", c0, "--out", t0], timeout=300)
-    corpus = next(e for e in vlib.read_ndjson(t0) if e.get("ev") == "corpus")
+    ev0 = vlib.read_ndjson(t0)
+    seen = []
+    n = validate(ctx, ev0, "regr0", seen=seen)
+    corpus = next(e for e in ev0 if e.get("ev") == "corpus")
     hunt = stale_member_queries(corpus)
     if hunt:
-        c1 = ctx.path("kf2_queries.ndjson")
+        c1 = ctx.path("regr_queries.ndjson")
         vlib.write_ndjson(c1, hunt)
-        t1 = ctx.path("kf2_trace.ndjson")
+        t1 = ctx.path("regr_trace.ndjson")
         vlib.run_bin("query_driver", args + ["--fixed", c1, "--out", t1], timeout=300)
-        validate(ctx, vlib.read_ndjson(t1), "kf2", seen=seen)
-    ctx.cov["traces_validated_against_impl"] = before
-    ctx.cov["recorded_findings_reproduced"] = {"bool_fast_range": any(KF_BOOLRANGE in s for s in seen),
-                                               "fuzzy_prefix_distance_2": any(KF_FUZZYPREFIX in s for s in seen),
-                                               "union_stale_member": any(KF_UNIONMEMBER in s for s in seen)}
+        n += validate(ctx, vlib.read_ndjson(t1), "regr1", seen=seen)
+    ctx.cov["repaired_findings_regressed"] = {"F34": any(KF_BOOLRANGE in s for s in seen), "F33": any(KF_UNIONMEMBER in s for s in seen)}
+    ctx.cov["regression_queries_F33"] = len(hunt)
+    log(f"[regr] {n} answers of the regression cases of F33 / F34 accepted ({len(hunt)} corpus-derived F33 queries)")
 
 
 def binding_selftest(ctx, rand_events, stripe_head):
@@ -396,8 +448,10 @@ def run(ctx):
                         "documents are identified through the unique `id` fast field (first value)",
                         "phrase slop is only generated for two distinct terms (|gap - 1| <= slop, as documented); fuzzy distance 2 only without "
                         "transposition-cost-one; phrase-prefix prefixes expand to fewer than max_expansions terms",
-                        "default generators steer around the recorded findings (range on a bool fast field, prefix fuzzy with distance 2); "
-                        "dedicated sub-runs reproduce them"]
+                        "the default generator keeps prefix fuzzy at distance <= 1, phrases of 3+ terms without slop and f64 bounds on the integer "
+                        "JSON column outside the two mis-rounded classes (recorded findings, reproduced by dedicated sub-runs)",
+                        "a top-level phrase of 3+ terms with slop is judged by two bounds (exact phrase matches; a match needs an assignment within "
+                        "the documented budget of moves) and by the independence of the answer from collector and scoring"]
     model_checking(ctx)
     replay_generated(ctx)
     if ctx.quick:
@@ -408,6 +462,7 @@ def run(ctx):
              (2500, 400, []), (1000, 500, ["--depth", "3"]), (6000, 200, ["--dense"]), (2000, 400, ["--depth", "3"]), (1200, 500, []), (4500, 250, [])])]
     evs = random_trees(ctx, runs)
     known_finding_runs(ctx)
+    regression_cases(ctx)
     # the stripe head for the self-test: a tiny dedicated run
     cp = ctx.path("st_cases.ndjson")
     vlib.write_ndjson(cp, [{"k": "bool", "cl": [{"o": "should", "q": {"k": "term", "f": "title", "t": "ta", "opt": "freq"}}], "msm": 1, "explicit": False}])
